@@ -370,12 +370,13 @@ for _p in ('C11', 'C16', 'C06', 'C02', 'C15'):
 for _p in ('C16', 'C06', 'C02'):
     PROPS[_p]['native'] = ['pw_n', 'blob_n']
 PROPS['C15']['native'] = ['pw_n', 'e57w_n']
+PROPS['C06']['native'] = ['pw_n', 'blob_n', 'img_n']
 for _p in ('C14', 'C10', 'C01'):
     PROPS[_p]['native'] = ['pcw_n']
 for _p in ('C17', 'C09', 'C03', 'C05', 'C07', 'C08'):
     PROPS[_p]['native'] = ['rd_n']
 
-FIX_COMMITS = ['4bb8197', '4c9a29a', '15147a8', '4e117ba', 'b93d656', 'a099e6e', 'e707a6b', '30d67e9', '4443841', '1d90b93', 'ec0e9b9', 'ed32bde']
+FIX_COMMITS = ['4bb8197', '4c9a29a', '15147a8', '4e117ba', 'b93d656', 'a099e6e', 'e707a6b', '30d67e9', '4443841', '1d90b93', 'ec0e9b9', 'ed32bde', '5c22086']
 
 _PENDING = 'unit not completed yet in the build round (applicable; see DESIGN.md §1) — not claimed until its obligations are discharged'
 NOT_APPLICABLE = {
